@@ -34,15 +34,24 @@ theories/Proofs/ExprLemmas.vos theories/Proofs/ExprLemmas.vok theories/Proofs/Ex
 theories/Proofs/SimBasics.vo theories/Proofs/SimBasics.glob theories/Proofs/SimBasics.v.beautified theories/Proofs/SimBasics.required_vo: theories/Proofs/SimBasics.v theories/Spec/SimSpec.vo
 theories/Proofs/SimBasics.vio: theories/Proofs/SimBasics.v theories/Spec/SimSpec.vio
 theories/Proofs/SimBasics.vos theories/Proofs/SimBasics.vok theories/Proofs/SimBasics.required_vos: theories/Proofs/SimBasics.v theories/Spec/SimSpec.vos
+theories/Proofs/SimExamples.vo theories/Proofs/SimExamples.glob theories/Proofs/SimExamples.v.beautified theories/Proofs/SimExamples.required_vo: theories/Proofs/SimExamples.v theories/Model/Sim.vo
+theories/Proofs/SimExamples.vio: theories/Proofs/SimExamples.v theories/Model/Sim.vio
+theories/Proofs/SimExamples.vos theories/Proofs/SimExamples.vok theories/Proofs/SimExamples.required_vos: theories/Proofs/SimExamples.v theories/Model/Sim.vos
+theories/Proofs/SimInitProofs.vo theories/Proofs/SimInitProofs.glob theories/Proofs/SimInitProofs.v.beautified theories/Proofs/SimInitProofs.required_vo: theories/Proofs/SimInitProofs.v theories/Model/Sim.vo theories/Proofs/SimBasics.vo theories/Proofs/SimStoreProofs.vo theories/Proofs/SimProofs.vo
+theories/Proofs/SimInitProofs.vio: theories/Proofs/SimInitProofs.v theories/Model/Sim.vio theories/Proofs/SimBasics.vio theories/Proofs/SimStoreProofs.vio theories/Proofs/SimProofs.vio
+theories/Proofs/SimInitProofs.vos theories/Proofs/SimInitProofs.vok theories/Proofs/SimInitProofs.required_vos: theories/Proofs/SimInitProofs.v theories/Model/Sim.vos theories/Proofs/SimBasics.vos theories/Proofs/SimStoreProofs.vos theories/Proofs/SimProofs.vos
 theories/Proofs/SimProofs.vo theories/Proofs/SimProofs.glob theories/Proofs/SimProofs.v.beautified theories/Proofs/SimProofs.required_vo: theories/Proofs/SimProofs.v theories/Model/Sim.vo theories/Proofs/SimBasics.vo theories/Proofs/SimStoreProofs.vo
 theories/Proofs/SimProofs.vio: theories/Proofs/SimProofs.v theories/Model/Sim.vio theories/Proofs/SimBasics.vio theories/Proofs/SimStoreProofs.vio
 theories/Proofs/SimProofs.vos theories/Proofs/SimProofs.vok theories/Proofs/SimProofs.required_vos: theories/Proofs/SimProofs.v theories/Model/Sim.vos theories/Proofs/SimBasics.vos theories/Proofs/SimStoreProofs.vos
+theories/Proofs/SimReplayProofs.vo theories/Proofs/SimReplayProofs.glob theories/Proofs/SimReplayProofs.v.beautified theories/Proofs/SimReplayProofs.required_vo: theories/Proofs/SimReplayProofs.v theories/Model/Sim.vo
+theories/Proofs/SimReplayProofs.vio: theories/Proofs/SimReplayProofs.v theories/Model/Sim.vio
+theories/Proofs/SimReplayProofs.vos theories/Proofs/SimReplayProofs.vok theories/Proofs/SimReplayProofs.required_vos: theories/Proofs/SimReplayProofs.v theories/Model/Sim.vos
 theories/Proofs/SimStoreProofs.vo theories/Proofs/SimStoreProofs.glob theories/Proofs/SimStoreProofs.v.beautified theories/Proofs/SimStoreProofs.required_vo: theories/Proofs/SimStoreProofs.v theories/Model/Sim.vo theories/Proofs/SimBasics.vo theories/Proofs/ExprLemmas.vo theories/Proofs/EvalImplProofs.vo
 theories/Proofs/SimStoreProofs.vio: theories/Proofs/SimStoreProofs.v theories/Model/Sim.vio theories/Proofs/SimBasics.vio theories/Proofs/ExprLemmas.vio theories/Proofs/EvalImplProofs.vio
 theories/Proofs/SimStoreProofs.vos theories/Proofs/SimStoreProofs.vok theories/Proofs/SimStoreProofs.required_vos: theories/Proofs/SimStoreProofs.v theories/Model/Sim.vos theories/Proofs/SimBasics.vos theories/Proofs/ExprLemmas.vos theories/Proofs/EvalImplProofs.vos
 theories/Props/C06.vo theories/Props/C06.glob theories/Props/C06.v.beautified theories/Props/C06.required_vo: theories/Props/C06.v theories/Model/EvalImpl.vo theories/Proofs/EvalProofs.vo theories/Proofs/EvalImplProofs.vo
 theories/Props/C06.vio: theories/Props/C06.v theories/Model/EvalImpl.vio theories/Proofs/EvalProofs.vio theories/Proofs/EvalImplProofs.vio
 theories/Props/C06.vos theories/Props/C06.vok theories/Props/C06.required_vos: theories/Props/C06.v theories/Model/EvalImpl.vos theories/Proofs/EvalProofs.vos theories/Proofs/EvalImplProofs.vos
-theories/Props/C07.vo theories/Props/C07.glob theories/Props/C07.v.beautified theories/Props/C07.required_vo: theories/Props/C07.v theories/Model/Sim.vo theories/Proofs/SimBasics.vo theories/Proofs/SimStoreProofs.vo theories/Proofs/SimProofs.vo
-theories/Props/C07.vio: theories/Props/C07.v theories/Model/Sim.vio theories/Proofs/SimBasics.vio theories/Proofs/SimStoreProofs.vio theories/Proofs/SimProofs.vio
-theories/Props/C07.vos theories/Props/C07.vok theories/Props/C07.required_vos: theories/Props/C07.v theories/Model/Sim.vos theories/Proofs/SimBasics.vos theories/Proofs/SimStoreProofs.vos theories/Proofs/SimProofs.vos
+theories/Props/C07.vo theories/Props/C07.glob theories/Props/C07.v.beautified theories/Props/C07.required_vo: theories/Props/C07.v theories/Model/Sim.vo theories/Proofs/SimBasics.vo theories/Proofs/SimStoreProofs.vo theories/Proofs/SimProofs.vo theories/Proofs/SimInitProofs.vo theories/Proofs/SimReplayProofs.vo theories/Proofs/SimExamples.vo
+theories/Props/C07.vio: theories/Props/C07.v theories/Model/Sim.vio theories/Proofs/SimBasics.vio theories/Proofs/SimStoreProofs.vio theories/Proofs/SimProofs.vio theories/Proofs/SimInitProofs.vio theories/Proofs/SimReplayProofs.vio theories/Proofs/SimExamples.vio
+theories/Props/C07.vos theories/Props/C07.vok theories/Props/C07.required_vos: theories/Props/C07.v theories/Model/Sim.vos theories/Proofs/SimBasics.vos theories/Proofs/SimStoreProofs.vos theories/Proofs/SimProofs.vos theories/Proofs/SimInitProofs.vos theories/Proofs/SimReplayProofs.vos theories/Proofs/SimExamples.vos
